@@ -587,6 +587,14 @@ fn encode_args(
         }
         let arg = args_iter.next().expect("function arity already checked");
 
+        let arg_is_reg = matches!(&arg.value, LowerArg::Raw(SimpleArg { is_reg: true, .. }) | LowerArg::Local { .. });
+        if arg_is_reg && enc.contributes_to_param_mask() && current_param_mask_bit == 0 {
+            // every bit of the parameter mask is taken, so this argument cannot be marked as a register
+            return Err(emitter.emit(error!(
+                message("too many arguments in instruction!"),
+                primary(arg, "no bit left in the parameter mask for this register"),
+            )));
+        }
         let arg_bit = match &arg.value {
             LowerArg::Raw(raw) if raw.is_reg => current_param_mask_bit,
             LowerArg::Local { .. } => current_param_mask_bit,
@@ -705,13 +713,6 @@ fn encode_args(
                 args_blob.write_all(&encoded.0).expect("Cursor<Vec> failed?!");
             },
         }
-    }
-
-    if current_param_mask_bit.trailing_zeros() > raw::ParamMask::BITS as _ {
-        return Err(emitter.emit(error!(
-            message("too many arguments in instruction!"),
-            primary(args[raw::ParamMask::BITS as usize], "too many arguments"),
-        )));
     }
 
     Ok(RawInstr {
